@@ -1,3 +1,4 @@
 INIT Init
 NEXT Next
 INVARIANT Judge
+CONSTANT FIX = {}
